@@ -289,6 +289,20 @@ Proof.
   intros k Hk. apply in_map_iff in Hk as (ko & <- & Hin). apply filter_In in Hin as [Hin _]. now apply in_map.
 Qed.
 
+Lemma others_keys2 : forall r1 r2 (b b2 : batch),
+  NoDup (map fst (b ++ b2)) ->
+  NoDup (map fst (others_of r1 b ++ others_of r2 b2)) /\
+  incl (map fst (others_of r1 b ++ others_of r2 b2)) (map fst (b ++ b2)).
+Proof.
+  intros r1 r2 b b2 Hn. rewrite !map_app in *.
+  pose proof (nodup_app_l _ _ _ Hn) as Hn1. pose proof (nodup_app_r _ _ _ Hn) as Hn2.
+  destruct (others_keys r1 b Hn1) as (Ho1 & Hi1). destruct (others_keys r2 b2 Hn2) as (Ho2 & Hi2).
+  split.
+  - apply NoDup_app_intro; [exact Ho1|exact Ho2|]. intros x Hx1 Hx2.
+    eapply nodup_app_disj; [exact Hn|apply Hi1; exact Hx1|apply Hi2; exact Hx2].
+  - intros x Hx. apply in_app_or in Hx as [Hx|Hx]; apply in_or_app; [left; now apply Hi1|right; now apply Hi2].
+Qed.
+
 Lemma pass_dag : forall cfg rr b rest st p,
   dag_inv g st -> pass g cfg rr b rest st = Ok p ->
   match p with
@@ -303,17 +317,17 @@ Proof.
     destruct Hinv as (HI & Hcov & HA).
     destruct (batch_fits g b (rs_pending st)) eqn:Eb; simpl in H; [|discriminate].
     destruct (batch_fits_spec _ _ _ Eb) as (HndB & HinB & _).
-    destruct (fits_all (List.concat rest) (remove_keys (map fst b) (rs_pending st))) eqn:Ef; simpl in H; [|discriminate].
+    destruct (fits_all (List.concat (map fst rest)) (remove_keys (map fst b) (rs_pending st))) eqn:Ef; simpl in H; [|discriminate].
     destruct (fits_all_spec _ _ Ef) as (Hnb2 & Hib2).
     bind_ok H st' H'. inversion H; subst p; clear H. simpl.
     assert (HndP : NoDup (rs_pending st)) by (eapply nodup_app_l; exact (si_nodup _ _ _ _ HI)).
-    assert (HndA : NoDup (map fst (b ++ List.concat rest))).
+    assert (HndA : NoDup (map fst (b ++ List.concat (map fst rest)))).
     { rewrite map_app. apply NoDup_app_intro; [exact HndB|exact Hnb2|].
       intros y Hy1 Hy2. apply Hib2 in Hy2. revert Hy2. now apply remove_keys_notin. }
-    assert (HinA : incl (map fst (b ++ List.concat rest)) (rs_pending st)).
+    assert (HinA : incl (map fst (b ++ List.concat (map fst rest))) (rs_pending st)).
     { rewrite map_app. intros y Hy. apply in_app_or in Hy as [Hy|Hy]; [now apply HinB|].
       eapply remove_keys_incl. now apply Hib2. }
-    destruct (others_keys rr _ HndA) as (HndO & HinO).
+    destruct (others_keys2 rr (List.concat (map snd rest)) _ _ HndA) as (HndO & HinO).
     destruct (resolve_phases_dag g Hdag Hnd Hend _ _ _ _ HI Hcov HA HndO (fun y Hy => HinA y (HinO y Hy)) H')
       as (HI' & Hcov' & HA' & _).
     split; [exact HI'|]. split; assumption. }
@@ -324,14 +338,14 @@ Proof.
   - destruct rest; [|discriminate]. inversion H; subst p; clear H. simpl. now apply Hdone.
   - destruct (hit_before cfg ready1 || hit_after cfg b).
     2:{ bind_ok H s Hs. inversion H; subst p; clear H. now apply Hnext. }
-    destruct (fits_all (List.concat rest) (remove_keys (map fst ready1) (rs_pending st4))) eqn:Ef; simpl in H; [|discriminate].
+    destruct (fits_all (List.concat (map fst rest)) (remove_keys (map fst ready1) (rs_pending st4))) eqn:Ef; simpl in H; [|discriminate].
     destruct (fits_all_spec _ _ Ef) as (Hnb2 & Hib2).
-    assert (Hib2' : incl (map fst (List.concat rest)) (rs_pending st4)).
+    assert (Hib2' : incl (map fst (List.concat (map fst rest))) (rs_pending st4)).
     { intros y Hy. eapply remove_keys_incl. apply Hib2. exact Hy. }
-    destruct (reruns_of rr (List.concat rest)) as [|r0 R2] eqn:ER2.
+    destruct (reruns_of (List.concat (map snd rest)) (List.concat (map fst rest))) as [|r0 R2] eqn:ER2.
     2:{ (* a task collected by waitAll interrupted itself *)
       bind_ok H st5 H5. inversion H; subst p; clear H. simpl.
-      destruct (others_keys rr _ Hnb2) as (HndO & HinO).
+      destruct (others_keys (List.concat (map snd rest)) _ Hnb2) as (HndO & HinO).
       destruct (resolve_phases_dag g Hdag Hnd Hend _ _ _ _ HI4 Hcov4 HA4 HndO (fun y Hy => Hib2' y (HinO y Hy)) H5)
         as (HI5 & Hcov5 & HA5 & _).
       split; [exact HI5|]. split; assumption. }
@@ -361,10 +375,10 @@ Proof.
       rewrite map_app. apply Permutation_app_comm.
 Qed.
 
-Lemma seg_loop_dag : forall cfg rr bs st o,
-  dag_inv g st -> seg_loop g cfg rr bs st = Ok o -> sout_ok o.
+Lemma seg_loop_dag : forall cfg bs st o,
+  dag_inv g st -> seg_loop g cfg bs st = Ok o -> sout_ok o.
 Proof.
-  intros cfg rr. induction bs as [|b rest IH]; simpl; intros st o Hinv H.
+  intros cfg. induction bs as [|[b rr] rest IH]; simpl; intros st o Hinv H.
   - inversion H; subst. exact Hinv.
   - bind_ok H p Hp. pose proof (pass_dag _ _ _ _ _ _ Hinv Hp) as Hpass. destruct p as [st'|o'].
     + eapply IH; eauto.
@@ -376,7 +390,7 @@ Lemma calls_dag : forall cfg tms n st o n' unused,
 Proof.
   intros cfg. induction tms as [|tm more IH]; simpl; intros n st o n' unused Hinv H.
   - inversion H; subst. exact Hinv.
-  - bind_ok H o1 H1. pose proof (seg_loop_dag _ _ _ _ _ Hinv H1) as Ho1.
+  - bind_ok H o1 H1. pose proof (seg_loop_dag _ _ _ _ Hinv H1) as Ho1.
     destruct o1 as [st1|out1 d1 st1|ready rr st5]; try (inversion H; subst; exact Ho1).
     destruct more as [|tm2 more]; [inversion H; subst; exact Ho1|].
     bind_ok H st6 H6. destruct (suspend_resume_dag _ _ _ _ Ho1 H6) as (Hinv6 & _). eapply IH; eauto.
@@ -390,7 +404,7 @@ Proof.
   pose proof (first_pass_dag _ _ _ _ Hinv Hp) as Hp1.
   destruct p as [st'|o1].
   - destruct tms as [|tm more]; [inversion H; subst; exact Hp1|].
-    bind_ok H o1 H1. pose proof (seg_loop_dag _ _ _ _ _ Hp1 H1) as Ho1.
+    bind_ok H o1 H1. pose proof (seg_loop_dag _ _ _ _ Hp1 H1) as Ho1.
     destruct o1 as [st1|out1 d1 st1|ready rr st5]; try (inversion H; subst; exact Ho1).
     destruct more as [|tm2 more]; [inversion H; subst; exact Ho1|].
     bind_ok H st6 H6. destruct (suspend_resume_dag _ _ _ _ Ho1 H6) as (Hinv6 & _). eapply calls_dag; eauto.
@@ -455,123 +469,240 @@ Variable g : graph.
 Hypothesis Hpre : g_dag g = false.
 Hypothesis Hnd : NoDup (all_keys g).
 Hypothesis Hend : ~ In kEND (all_keys g).
+(* graph.compile: only a Workflow is eager, and a Workflow runs in all-predecessor mode *)
+Hypothesis Hne : g_eager g = false.
+
+(* between a task-level interrupt and the next getFromReadyChannels the channels are not empty: what is
+   kept is that no pending task has a value of its own in any channel (so that no value is overwritten) *)
+Definition out_empty (st : rstate) : Prop :=
+  forall y, ~ In y (chan_keys g) -> forall p, In p (all_keys g) -> ch_vals (rs_chans st y) p = None.
+Definition pend_free (st : rstate) : Prop :=
+  forall y p, In p (rs_pending st) -> In p (all_keys g) -> ch_vals (rs_chans st y) p = None.
+Definition pinvI (I : list handle) (st : rstate) : Prop :=
+  out_empty st /\ pend_free st /\ NoDup (rs_pending st) /\ Acc g I st.
 
 Definition psout_ok (o : sout) : Prop :=
   match o with
-  | SRunning st => pregel_inv g st
+  | SRunning st => pinvI [] st
   | SDone out dropped st => all_empty g st /\ Acc g (out :: map snd dropped) st
-  | SInt ready rr st => all_empty g st /\ Acc g (map snd ready) st
+  | SInt ready rr st => pinvI (map snd ready) st
   end.
 
-Lemma suspend_resume_pregel : forall ready rr st st',
-  all_empty g st -> Acc g (map snd ready) st -> suspend_resume g ready rr st = Ok st' ->
-  pregel_inv g st' /\ exists s, checkpoint_drain g ready st = Ok s /\ s_open s = [].
+Lemma all_empty_pinv : forall I st, all_empty g st -> NoDup (rs_pending st) -> Acc g I st -> pinvI I st.
 Proof.
-  intros ready rr st st' Hemp HA H.
-  destruct (suspend_resume_spec g _ _ _ _ _ HA (Permutation_refl _) H) as (Hdr & Hts & (f & Hf) & HA').
-  split; [|exact Hdr]. split; [|exact HA'].
-  intros y p Hp. rewrite Hf. simpl. now rewrite (Hemp y p Hp).
+  intros I st Hemp Hn HA. split; [intros y _ p Hp; now apply Hemp|]. split; [intros y p _ Hp; now apply Hemp|]. now split.
+Qed.
+
+Lemma suspend_resume_pregel : forall ready rr st st',
+  pinvI (map snd ready) st -> suspend_resume g ready rr st = Ok st' ->
+  pinvI [] st' /\ exists s, checkpoint_drain g ready st = Ok s /\ s_open s = [].
+Proof.
+  intros ready rr st st' (Hout & Hpf & Hn & HA) H.
+  destruct (suspend_resume_spec g _ _ _ _ _ HA (Permutation_refl _) H) as (Hdr & [Hp Hr] & (f & Hf) & HA').
+  split; [|exact Hdr]. split; [|split; [|split; [now rewrite Hp|exact HA']]].
+  - intros y Hy p Hpk. rewrite Hf. simpl. now rewrite (Hout y Hy p Hpk).
+  - intros y p Hpp Hpk. rewrite Hp in Hpp. rewrite Hf. simpl. now rewrite (Hpf y p Hpp Hpk).
+Qed.
+
+Lemma phase1_keys : forall b st l st', phase1 g b st = Ok (l, st') -> forall k, In k (map fst b) -> In k (all_keys g).
+Proof.
+  induction b as [|[k0 outs] b IH]; simpl; intros st l st' H k Hk; [destruct Hk|].
+  destruct (call_of g k0) as [c|] eqn:Ec; [|discriminate]. bind_ok H t Ht.
+  destruct (fresh (rs_store st)) as [out s1] eqn:Ef.
+  bind_ok H r1 H1. destruct r1 as [rv st1]. bind_ok H r2 H2. destruct r2 as [l2 st2].
+  destruct Hk as [<-|Hk]; [eapply nlist_get_in; exact Ec|eapply IH; eauto].
+Qed.
+
+Lemma resolve_keys : forall b st st', resolve_phases g b st = Ok st' -> forall k, In k (map fst b) -> In k (all_keys g).
+Proof.
+  intros b st st' H. unfold resolve_phases in H. bind_ok H r1 H1. destruct r1 as [l st1]. eapply phase1_keys; eauto.
+Qed.
+
+Lemma remove_keys_nodup : forall ks l, NoDup l -> NoDup (remove_keys ks l).
+Proof.
+  induction ks as [|k ks IH]; simpl; intros l Hn; [exact Hn|]. apply IH. now apply remove_one_nodup.
+Qed.
+
+Lemma remove_keys_all : forall ks l, NoDup ks -> incl ks l -> List.length ks = List.length l -> remove_keys ks l = [].
+Proof.
+  intros ks l Hn Hi Hl. pose proof (remove_keys_perm ks l Hn Hi) as HP. apply Permutation_length in HP.
+  rewrite app_length in HP. destruct (remove_keys ks l); [reflexivity|simpl in HP; lia].
+Qed.
+
+Lemma remove_keys_self : forall l, remove_keys l l = [].
+Proof.
+  induction l as [|k l IH]; simpl; [reflexivity|]. now rewrite N.eqb_refl.
+Qed.
+
+(* the tasks that did not interrupt themselves are resolved, nothing is taken from the channels *)
+Lemma resolve_others_pj : forall b I st st',
+  pinvI I st -> NoDup (map fst b) -> incl (map fst b) (rs_pending st) ->
+  resolve_phases g b st = Ok st' -> pinvI I st'.
+Proof.
+  intros b I st st' (Hout & Hpf & Hn & HA) HndB HinB H.
+  pose proof (resolve_keys _ _ _ H) as Hk.
+  assert (Hfree : forall y p, In p (map fst b) -> ch_vals (rs_chans st y) p = None).
+  { intros y p Hp. apply Hpf; [now apply HinB|now apply Hk]. }
+  destruct (resolve_phases_pregel g Hpre Hnd Hend _ _ _ _ Hfree HA HndB H) as (HA' & Hout' & Hfr & Hp').
+  split; [|split; [|split; [rewrite Hp'; now apply remove_keys_nodup|exact HA']]].
+  - intros y Hy p Hpk. rewrite (Hout' y Hy). now apply Hout.
+  - intros y p Hpp Hpk. rewrite Hp' in Hpp.
+    destruct (in_dec N.eq_dec p (map fst b)) as [Hin|Hnin].
+    + exfalso. revert Hpp. now apply remove_keys_notin.
+    + rewrite (Hfr y p Hnin). apply Hpf; [|exact Hpk]. eapply remove_keys_incl; eauto.
+Qed.
+
+(* calculateNextTasks on a batch wait() returned: every channel is empty afterwards and the pending tasks
+   are exactly the new ones *)
+Lemma calc_next_pj : forall b st ready st4,
+  pinvI [] st -> calc_next g b st = Ok (ready, st4) ->
+  all_empty g st4 /\ Acc g (map snd ready) st4 /\ NoDup (map fst ready) /\ rs_pending st4 = map fst ready.
+Proof.
+  intros b st ready st4 (Hout & Hpf & Hn & HA) H. unfold calc_next in H.
+  destruct (batch_fits g b (rs_pending st)) eqn:Eb; simpl in H; [|discriminate].
+  destruct (batch_fits_spec _ _ _ Eb) as (HndB & HinB & Hlen). specialize (Hlen Hne).
+  assert (Hk : forall k, In k (map fst b) -> In k (all_keys g)).
+  { pose proof H as H'. unfold calc_body in H'. bind_ok H' st3 H3. eapply resolve_keys; eauto. }
+  assert (Hfree : forall y p, In p (map fst b) -> ch_vals (rs_chans st y) p = None).
+  { intros y p Hp. apply Hpf; [now apply HinB|now apply Hk]. }
+  destruct (calc_body_pregel_gen g Hpre Hnd Hend _ _ _ _ _ Hfree Hout HA HndB H) as (Hemp4 & HA4 & Hrn & Hp4).
+  rewrite app_nil_r in HA4. rewrite (remove_keys_all _ _ HndB HinB Hlen) in Hp4. simpl in Hp4. tauto.
+Qed.
+
+(* a second getFromReadyChannels on empty channels finds nothing *)
+Lemma calc_body_nil_empty : forall st ready st',
+  all_empty g st -> calc_body g [] st = Ok (ready, st') -> ready = [] /\ rs_store st' = rs_store st /\
+  rs_pending st' = rs_pending st /\ (forall y, rs_chans st' y = rs_chans st y).
+Proof.
+  intros st ready st' Hemp H. unfold calc_body in H. bind_ok H st3 H3.
+  assert (E3 : st3 = mark_resolved [] st) by (unfold resolve_phases in H3; simpl in H3; now inversion H3).
+  subst st3. clear H3.
+  assert (E : forall xs sa r sb, (forall y p, In p (all_keys g) -> ch_vals (rs_chans sa y) p = None) ->
+              get_ready g xs sa = Ok (r, sb) -> r = [] /\ sb = sa).
+  { induction xs as [|x xs IH]; simpl; intros sa r sb He H0.
+    - inversion H0; subst. auto.
+    - unfold chan_get at 1 in H0.
+      assert (Er : chan_ready g x (rs_chans sa x) = false).
+      { unfold chan_ready. rewrite Hpre. rewrite chan_values_vlist. rewrite vlist_all_none by (intros p Hp; now apply He). reflexivity. }
+      rewrite Er in H0. simpl in H0. bind_ok H0 r2 H2. destruct r2 as [l s2]. inversion H0; subst.
+      destruct (IH _ _ _ He H2) as [-> ->]. auto. }
+  assert (Hemp' : forall y p, In p (all_keys g) -> ch_vals (rs_chans (mark_resolved [] st) y) p = None) by exact Hemp.
+  destruct (E _ _ _ _ Hemp' H) as [-> ->]. repeat split.
 Qed.
 
 Lemma first_pass_pregel : forall cfg b st p,
-  pregel_inv g st -> first_pass g cfg b st = Ok p ->
+  pinvI [] st -> first_pass g cfg b st = Ok p ->
   match p with
-  | PNext st' => pregel_inv g st'
+  | PNext st' => pinvI [] st'
   | PEnd (SRunning _) => False
   | PEnd o => psout_ok o
   end.
 Proof.
   intros cfg b st p Hinv H. unfold first_pass in H. bind_ok H r H1. destruct r as [ready1 st4].
-  destruct (calc_next_pregel g Hpre Hnd Hend _ _ _ _ Hinv H1) as (Hemp4 & HA4 & Hrn).
+  destruct (calc_next_pj _ _ _ _ Hinv H1) as (Hemp4 & HA4 & Hrn & Hp4).
+  assert (Hn4 : NoDup (rs_pending st4)) by now rewrite Hp4.
   destruct (nlist_get kEND ready1) as [out|] eqn:Ee.
   - inversion H; subst p; clear H. simpl.
     split; [exact Hemp4|]. eapply Acc_perm; [|exact HA4]. now apply map_snd_filter_end.
   - destruct (hit_before cfg ready1).
-    + inversion H; subst p; clear H. simpl. now split.
-    + bind_ok H s Hs. inversion H; subst p; clear H. split; [exact Hemp4|].
+    + inversion H; subst p; clear H. simpl. now apply all_empty_pinv.
+    + bind_ok H s Hs. inversion H; subst p; clear H. apply all_empty_pinv; [exact Hemp4|exact Hn4|].
       eapply consume_all_acc; [|exact Hs]. now rewrite app_nil_r.
 Qed.
 
-(* passes in which no task interrupts itself *)
-Lemma pass_pregel : forall cfg b rest st p,
-  pregel_inv g st -> pass g cfg [] b rest st = Ok p ->
+Lemma pass_pregel : forall cfg rr b rest st p,
+  pinvI [] st -> pass g cfg rr b rest st = Ok p ->
   match p with
-  | PNext st' => pregel_inv g st'
+  | PNext st' => pinvI [] st'
   | PEnd (SRunning _) => False
   | PEnd o => psout_ok o
   end.
 Proof.
-  intros cfg b rest st p Hinv H. unfold pass in H. rewrite reruns_of_nil in H.
+  intros cfg rr b rest st p Hinv H. unfold pass in H.
+  destruct (reruns_of rr b) as [|r0 R1] eqn:ER.
+  2:{ destruct (batch_fits g b (rs_pending st)) eqn:Eb; simpl in H; [|discriminate].
+    destruct (batch_fits_spec _ _ _ Eb) as (HndB & HinB & _).
+    destruct (fits_all (List.concat (map fst rest)) (remove_keys (map fst b) (rs_pending st))) eqn:Ef; simpl in H; [|discriminate].
+    destruct (fits_all_spec _ _ Ef) as (Hnb2 & Hib2).
+    bind_ok H st' H'. inversion H; subst p; clear H. simpl.
+    assert (HndP : NoDup (rs_pending st)) by apply Hinv.
+    assert (HndA : NoDup (map fst (b ++ List.concat (map fst rest)))).
+    { rewrite map_app. apply NoDup_app_intro; [exact HndB|exact Hnb2|].
+      intros y Hy1 Hy2. apply Hib2 in Hy2. revert Hy2. now apply remove_keys_notin. }
+    assert (HinA : incl (map fst (b ++ List.concat (map fst rest))) (rs_pending st)).
+    { rewrite map_app. intros y Hy. apply in_app_or in Hy as [Hy|Hy]; [now apply HinB|].
+      eapply remove_keys_incl. now apply Hib2. }
+    destruct (others_keys2 rr (List.concat (map snd rest)) _ _ HndA) as (HndO & HinO).
+    exact (resolve_others_pj _ _ _ _ Hinv HndO (fun y Hy => HinA y (HinO y Hy)) H'). }
   bind_ok H r H1. destruct r as [ready1 st4].
-  destruct (calc_next_pregel g Hpre Hnd Hend _ _ _ _ Hinv H1) as (Hemp4 & HA4 & Hrn).
-  assert (Hnext : forall s, consume_all (map snd ready1) (rs_store st4) = Ok s -> pregel_inv g (set_store st4 s)).
-  { intros s Hs. split; [exact Hemp4|]. eapply consume_all_acc; [|exact Hs]. now rewrite app_nil_r. }
+  destruct (calc_next_pj _ _ _ _ Hinv H1) as (Hemp4 & HA4 & Hrn & Hp4).
+  assert (Hn4 : NoDup (rs_pending st4)) by now rewrite Hp4.
   destruct (nlist_get kEND ready1) as [out|] eqn:Ee.
   - destruct rest; [|discriminate]. inversion H; subst p; clear H. simpl.
     split; [exact Hemp4|]. eapply Acc_perm; [|exact HA4]. now apply map_snd_filter_end.
   - destruct (hit_before cfg ready1 || hit_after cfg b).
-    2:{ bind_ok H s Hs. inversion H; subst p; clear H. now apply Hnext. }
-    destruct (fits_all (List.concat rest) (remove_keys (map fst ready1) (rs_pending st4))) eqn:Ef; simpl in H; [|discriminate].
-    destruct (fits_all_spec _ _ Ef) as (Hnb2 & _). rewrite reruns_of_nil in H.
+    2:{ bind_ok H s Hs. inversion H; subst p; clear H. apply all_empty_pinv; [exact Hemp4|exact Hn4|].
+        eapply consume_all_acc; [|exact Hs]. now rewrite app_nil_r. }
+    (* every task was collected by wait(): waitAll finds nothing *)
+    rewrite Hp4, remove_keys_self in H.
+    destruct (fits_all (List.concat (map fst rest)) []) eqn:Ef; simpl in H; [|discriminate].
+    assert (Eb2 : List.concat (map fst rest) = []).
+    { unfold fits_all in Ef. apply andb_true_iff in Ef as [_ Ef]. apply Nat.eqb_eq in Ef. rewrite map_length in Ef.
+      destruct (List.concat (map fst rest)); [reflexivity|discriminate]. }
+    rewrite Eb2 in H. unfold reruns_of at 1 in H. cbn [map filter] in H.
     bind_ok H r2 H2. destruct r2 as [ready2 st5].
-    destruct (calc_body_pregel g Hpre Hnd Hend _ _ _ _ _ Hemp4 HA4 Hnb2 H2) as (Hemp5 & HA5 & Hrn2).
-    destruct (nlist_get kEND ready2) as [out|] eqn:Ee2; inversion H; subst p; clear H; simpl.
-    * split; [exact Hemp5|]. eapply Acc_perm; [|exact HA5]. rewrite map_app.
-      rewrite (map_snd_filter_end _ _ Hrn2 Ee2). simpl.
-      apply perm_trans with (out :: map snd (filter not_end ready2) ++ map snd ready1); [reflexivity|].
-      constructor. apply Permutation_app_comm.
-    * split; [exact Hemp5|]. eapply Acc_perm; [|exact HA5]. rewrite map_app. apply Permutation_app_comm.
+    destruct (calc_body_nil_empty _ _ _ Hemp4 H2) as (-> & Hs5 & Hp5 & Hc5).
+    assert (Hemp5 : all_empty g st5) by (intros y q Hq; rewrite Hc5; now apply Hemp4).
+    assert (HA5 : Acc g (map snd ready1) st5).
+    { destruct HA4 as [Hok HP]. split; [now rewrite Hs5|]. rewrite Hs5. unfold held in *.
+      erewrite flat_map_ext; [exact HP|]. intros y. now rewrite Hc5. }
+    simpl in H. inversion H; subst p; clear H. simpl. rewrite app_nil_r.
+    apply all_empty_pinv; [exact Hemp5|now rewrite Hp5|exact HA5].
 Qed.
 
 Lemma seg_loop_pregel : forall cfg bs st o,
-  pregel_inv g st -> seg_loop g cfg [] bs st = Ok o -> psout_ok o.
+  pinvI [] st -> seg_loop g cfg bs st = Ok o -> psout_ok o.
 Proof.
-  intros cfg. induction bs as [|b rest IH]; simpl; intros st o Hinv H.
+  intros cfg. induction bs as [|[b rr] rest IH]; simpl; intros st o Hinv H.
   - inversion H; subst. exact Hinv.
-  - bind_ok H p Hp. pose proof (pass_pregel _ _ _ _ _ Hinv Hp) as Hpass. destruct p as [st'|o'].
+  - bind_ok H p Hp. pose proof (pass_pregel _ _ _ _ _ _ Hinv Hp) as Hpass. destruct p as [st'|o'].
     + eapply IH; eauto.
     + inversion H; subst o'. destruct o; [destruct Hpass|exact Hpass|exact Hpass].
 Qed.
 
-Definition no_reruns (tms : list seg) : Prop := Forall (fun tm => sg_rr tm = []) tms.
-
 Lemma calls_pregel : forall cfg tms n st o n' unused,
-  no_reruns tms -> pregel_inv g st -> calls g cfg tms n st = Ok (o, n', unused) -> psout_ok o.
+  pinvI [] st -> calls g cfg tms n st = Ok (o, n', unused) -> psout_ok o.
 Proof.
-  intros cfg. induction tms as [|tm more IH]; simpl; intros n st o n' unused Hnr Hinv H.
+  intros cfg. induction tms as [|tm more IH]; simpl; intros n st o n' unused Hinv H.
   - inversion H; subst. exact Hinv.
-  - inversion Hnr as [|? ? Hr Hnr']; subst. rewrite Hr in H.
-    bind_ok H o1 H1. pose proof (seg_loop_pregel _ _ _ _ Hinv H1) as Ho1.
+  - bind_ok H o1 H1. pose proof (seg_loop_pregel _ _ _ _ Hinv H1) as Ho1.
     destruct o1 as [st1|out1 d1 st1|ready rr st5]; try (inversion H; subst; exact Ho1).
     destruct more as [|tm2 more]; [inversion H; subst; exact Ho1|].
-    bind_ok H st6 H6. destruct Ho1 as (Hemp & HA).
-    destruct (suspend_resume_pregel _ _ _ _ Hemp HA H6) as (Hinv6 & _). eapply IH; eauto.
+    bind_ok H st6 H6. destruct (suspend_resume_pregel _ _ _ _ Ho1 H6) as (Hinv6 & _). eapply IH; eauto.
 Qed.
 
-Lemma init_pregel : forall st, init_state g = Ok st -> pregel_inv g st.
+Lemma init_pregel : forall st, init_state g = Ok st -> pinvI [] st.
 Proof.
   intros st H. unfold init_state in H. rewrite Hpre in H. inversion H; subst st; clear H.
-  split; [intros y p _; reflexivity|]. apply (state0_inv g).
+  apply all_empty_pinv; [intros y p _; reflexivity| |apply (state0_inv g)].
+  simpl. repeat constructor. intros [].
 Qed.
 
 Lemma run_one_pregel : forall cfg start tms o n unused,
-  no_reruns tms -> run_one g cfg start tms = Ok (o, n, unused) -> psout_ok o.
+  run_one g cfg start tms = Ok (o, n, unused) -> psout_ok o.
 Proof.
-  intros cfg start tms o n unused Hnr H. unfold run_one in H. bind_ok H st0 H0.
+  intros cfg start tms o n unused H. unfold run_one in H. bind_ok H st0 H0.
   pose proof (init_pregel _ H0) as Hinv. bind_ok H p Hp.
   pose proof (first_pass_pregel _ _ _ _ Hinv Hp) as Hp1.
   destruct p as [st'|o1].
   - destruct tms as [|tm more]; [inversion H; subst; exact Hp1|].
-    inversion Hnr as [|? ? Hr Hnr']; subst. rewrite Hr in H.
     bind_ok H o1 H1. pose proof (seg_loop_pregel _ _ _ _ Hp1 H1) as Ho1.
     destruct o1 as [st1|out1 d1 st1|ready rr st5]; try (inversion H; subst; exact Ho1).
     destruct more as [|tm2 more]; [inversion H; subst; exact Ho1|].
-    bind_ok H st6 H6. destruct Ho1 as (Hemp & HA).
-    destruct (suspend_resume_pregel _ _ _ _ Hemp HA H6) as (Hinv6 & _). eapply calls_pregel; eauto.
+    bind_ok H st6 H6. destruct (suspend_resume_pregel _ _ _ _ Ho1 H6) as (Hinv6 & _). eapply calls_pregel; eauto.
   - destruct o1 as [st1|out1 d1 st1|ready rr st5]; [destruct Hp1|inversion H; subst; exact Hp1|].
     destruct tms as [|tm more]; [inversion H; subst; exact Hp1|].
-    bind_ok H st6 H6. destruct Hp1 as (Hemp & HA).
-    destruct (suspend_resume_pregel _ _ _ _ Hemp HA H6) as (Hinv6 & _). eapply calls_pregel; eauto.
+    bind_ok H st6 H6. destruct (suspend_resume_pregel _ _ _ _ Hp1 H6) as (Hinv6 & _). eapply calls_pregel; eauto.
 Qed.
 
 Lemma pregel_done_open : forall out st,
@@ -623,24 +754,24 @@ Proof.
 Qed.
 
 Lemma resumed_open_empty_pregel_s : forall g cfg start tms out st,
-  g_dag g = false -> NoDup (all_keys g) -> ~ In kEND (all_keys g) -> no_reruns tms ->
+  g_dag g = false -> g_eager g = false -> NoDup (all_keys g) -> ~ In kEND (all_keys g) ->
   run_int g cfg start tms = Ok (SDone out [] st) ->
   s_open (rs_store st) = [out].
 Proof.
-  intros g cfg start tms out st Hp Hn He Hnr H. destruct (run_int_one _ _ _ _ _ H) as (n & H1).
-  pose proof (run_one_pregel g Hp Hn He _ _ _ _ _ _ Hnr H1) as (Hemp & HA). simpl in HA.
+  intros g cfg start tms out st Hp Hne Hn He H. destruct (run_int_one _ _ _ _ _ H) as (n & H1).
+  pose proof (run_one_pregel g Hp Hn He Hne _ _ _ _ _ _ H1) as (Hemp & HA). simpl in HA.
   eapply pregel_done_open; eauto.
 Qed.
 
 Lemma int_acc : forall g cfg start tms ready rr st,
   NoDup (all_keys g) -> ~ In kEND (all_keys g) -> (g_dag g = true -> covered g = true) ->
-  (g_dag g = false -> no_reruns tms) ->
+  (g_dag g = false -> g_eager g = false) ->
   run_int g cfg start tms = Ok (SInt ready rr st) -> Acc g (map snd ready) st.
 Proof.
   intros g cfg start tms ready rr st Hn He Hc Hnr H. destruct (run_int_one _ _ _ _ _ H) as (n & H1).
   destruct (g_dag g) eqn:Hd.
   - pose proof (run_one_dag g Hd Hn He _ _ _ _ _ _ (Hc eq_refl) H1) as (_ & _ & HA). exact HA.
-  - pose proof (run_one_pregel g Hd Hn He _ _ _ _ _ _ (Hnr eq_refl) H1) as (_ & HA). exact HA.
+  - pose proof (run_one_pregel g Hd Hn He (Hnr eq_refl) _ _ _ _ _ _ H1) as (_ & _ & _ & HA). exact HA.
 Qed.
 
 (* a suspended run holds nothing: whenever a call leaves through an interrupt exit — the first call or
@@ -648,7 +779,7 @@ Qed.
    task — the checkpoint conversion drains every live handle *)
 Lemma suspended_holds_nothing_s : forall g cfg start tms ready rr st,
   NoDup (all_keys g) -> ~ In kEND (all_keys g) -> (g_dag g = true -> covered g = true) ->
-  (g_dag g = false -> no_reruns tms) ->
+  (g_dag g = false -> g_eager g = false) ->
   run_int g cfg start tms = Ok (SInt ready rr st) ->
   exists s, checkpoint_drain g ready st = Ok s /\ s_open s = [].
 Proof.
@@ -661,13 +792,13 @@ Qed.
 
 Lemma resumed_done_store_ok : forall g cfg start tms out dropped st,
   NoDup (all_keys g) -> ~ In kEND (all_keys g) -> (g_dag g = true -> covered g = true) ->
-  (g_dag g = false -> no_reruns tms) ->
+  (g_dag g = false -> g_eager g = false) ->
   run_int g cfg start tms = Ok (SDone out dropped st) -> store_ok (rs_store st).
 Proof.
   intros g cfg start tms out dropped st Hn He Hc Hnr H. destruct (run_int_one _ _ _ _ _ H) as (n & H1).
   destruct (g_dag g) eqn:Hd.
   - pose proof (run_one_dag g Hd Hn He _ _ _ _ _ _ (Hc eq_refl) H1) as (_ & [Hok _] & _). exact Hok.
-  - pose proof (run_one_pregel g Hd Hn He _ _ _ _ _ _ (Hnr eq_refl) H1) as (_ & [Hok _]). exact Hok.
+  - pose proof (run_one_pregel g Hd Hn He (Hnr eq_refl) _ _ _ _ _ _ H1) as (_ & [Hok _]). exact Hok.
 Qed.
 
 (* every stream that existed during any call of the run — inputs, node outputs, copies, merged and
@@ -676,7 +807,7 @@ Qed.
 Lemma every_stream_released_resumed_s : forall g cfg start tms out dropped st s',
   NoDup (all_keys g) -> ~ In kEND (all_keys g) ->
   (g_dag g = true -> covered g = true /\ all_finished g st = true) ->
-  (g_dag g = false -> dropped = [] /\ no_reruns tms) ->
+  (g_dag g = false -> dropped = [] /\ g_eager g = false) ->
   run_int g cfg start tms = Ok (SDone out dropped st) ->
   consume out (rs_store st) = Ok s' ->
   s_open s' = [] /\ forall h, created (s_hist s') h -> released (s_hist s') h.
@@ -687,7 +818,7 @@ Proof.
   assert (Hopen : s_open (rs_store st) = [out]).
   { destruct (g_dag g) eqn:Hd.
     - destruct (Hdagh eq_refl) as [Hcov Hfin]. apply (resumed_open_empty_dag_s g cfg start tms out dropped st Hd Hn He Hcov H Hfin).
-    - destruct (Hpre eq_refl) as [Hdr Hnr]. rewrite Hdr in H. apply (resumed_open_empty_pregel_s g cfg start tms out st Hd Hn He Hnr H). }
+    - destruct (Hpre eq_refl) as [Hdr Hnr]. rewrite Hdr in H. apply (resumed_open_empty_pregel_s g cfg start tms out st Hd Hnr Hn He H). }
   pose proof (consume_ok _ _ _ Hok Hcons) as Hok'.
   destruct (consume_perm _ _ _ Hcons) as (HP & _). rewrite Hopen in HP.
   assert (Hempty : s_open s' = []).
@@ -718,11 +849,16 @@ Proof. induction ready as [|a l IH]; simpl; [reflexivity|exact IH]. Qed.
 Lemma hit_after_icfg0 : forall b, hit_after icfg0 b = false.
 Proof. induction b as [|a l IH]; simpl; [reflexivity|exact IH]. Qed.
 
+Definition plain (bs : list batch) : seg := map (fun b => (b, [])) bs.
+
+Lemma plain_fst : forall bs, map fst (plain bs) = bs.
+Proof. induction bs as [|b bs IH]; simpl; [reflexivity|now rewrite IH]. Qed.
+
 Lemma seg_loop_icfg0 : forall g bs st,
-  seg_loop g icfg0 [] bs st = res_map to_sout (run_from g bs st).
+  seg_loop g icfg0 (plain bs) st = res_map to_sout (run_from g bs st).
 Proof.
   intros g. induction bs as [|b rest IH]; intros st; [reflexivity|].
-  cbn [seg_loop run_from]. unfold pass, superstep. rewrite reruns_of_nil.
+  cbn [plain map seg_loop run_from]. fold (plain rest). unfold pass, superstep. rewrite reruns_of_nil.
   destruct (calc_next g b st) as [[ready st4]|e|]; simpl; try reflexivity.
   destruct (nlist_get kEND ready) as [out|] eqn:Ee.
   - destruct rest; reflexivity.
@@ -731,7 +867,7 @@ Proof.
 Qed.
 
 Definition one_call (rest : list batch) : list seg :=
-  match rest with [] => [] | _ :: _ => [ {| sg_b := rest; sg_rr := [] |} ] end.
+  match rest with [] => [] | _ :: _ => [ plain rest ] end.
 
 Lemma run_int_icfg0_l : forall g b rest, run_int g icfg0 b (one_call rest) = res_map to_sout (run g (b :: rest)).
 Proof.
@@ -742,18 +878,17 @@ Proof.
   - destruct rest; reflexivity.
   - rewrite hit_before_icfg0.
     destruct (consume_all (map snd ready) (rs_store st4)) as [s|e|]; simpl; try reflexivity.
-    destruct rest as [|b1 rest]; [reflexivity|]. cbn [one_call sg_b sg_rr].
+    destruct rest as [|b1 rest]; [reflexivity|]. cbn [one_call].
     rewrite seg_loop_icfg0. destruct (run_from g (b1 :: rest) (set_store st4 s)) as [[st'|out d st']|e|]; reflexivity.
 Qed.
 
 (* ---- examples (non-vacuity of the statements) *)
-Definition mkseg (bs : list batch) (rr : list key) : seg := {| sg_b := bs; sg_rr := rr |}.
 Definition ex_dag_cfg : icfg := {| i_before := [3]; i_after := [] |}.
-Definition ex_dag_tms : list seg := [ mkseg [ [(2, [[3; 4]])] ] []; mkseg [ [(4, []); (3, [])] ] [] ].
+Definition ex_dag_tms : list seg := [ plain [ [(2, [[3; 4]])] ]; plain [ [(4, []); (3, [])] ] ].
 Definition ex_wf_cfg : icfg := {| i_before := []; i_after := [2] |}.
-Definition ex_wf_tms : list seg := [ mkseg [ [(2, [])] ] []; mkseg [ [(3, [[5]])]; [(5, [])] ] [] ].
+Definition ex_wf_tms : list seg := [ plain [ [(2, [])] ]; plain [ [(3, [[5]])]; [(5, [])] ] ].
 (* node 3 asks for a rerun when it is first collected (together with node 4) *)
-Definition ex_rr_tms : list seg := [ mkseg [ [(2, [[3; 4]])]; [(4, []); (3, [])] ] [3]; mkseg [ [(3, [])] ] [] ].
+Definition ex_rr_tms : list seg := [ [ ([(2, [[3; 4]])], []); ([(4, []); (3, [])], [3]) ]; plain [ [(3, [])] ] ].
 
 Lemma ex_dag_resumed_ok :
   exists out st, run_int ex_dag ex_dag_cfg [(0, [])] ex_dag_tms = Ok (SDone out [] st) /\ all_finished ex_dag st = true /\
@@ -790,11 +925,28 @@ Proof.
 Qed.
 
 Lemma ex_dag_suspended_ok :
-  exists ready st, run_int ex_dag ex_dag_cfg [(0, [])] [ mkseg [ [(2, [[3; 4]])] ] [] ] = Ok (SInt ready [] st) /\
+  exists ready st, run_int ex_dag ex_dag_cfg [(0, [])] [ plain [ [(2, [[3; 4]])] ] ] = Ok (SInt ready [] st) /\
                    List.length ready = 2%nat /\ List.length (held ex_dag st) = 1%nat.
 Proof.
-  assert (E : exists ready st, run_int ex_dag ex_dag_cfg [(0, [])] [ mkseg [ [(2, [[3; 4]])] ] [] ] = Ok (SInt ready [] st) /\
+  assert (E : exists ready st, run_int ex_dag ex_dag_cfg [(0, [])] [ plain [ [(2, [[3; 4]])] ] ] = Ok (SInt ready [] st) /\
               (List.length ready = 2%nat /\ List.length (held ex_dag st) = 1%nat)).
   { vm_compute. eexists. eexists. split; [reflexivity|]. split; reflexivity. }
+  exact E.
+Qed.
+
+(* any-predecessor mode, a loop: node 2 runs, is scheduled again by the branch of node 3 and asks for a
+   rerun in its second execution — the same call collects it once as completed and once as interrupted *)
+Definition ex_pregel_rr_tms : list seg :=
+  [ [ ([(2, [])], []); ([(3, [[2]])], []); ([(2, [])], [2]) ]; plain [ [(2, [])]; [(3, [[1]])] ] ].
+
+Lemma ex_pregel_rerun_ok :
+  exists out st, run_int ex_pregel icfg0 [(0, [])] ex_pregel_rr_tms = Ok (SDone out [] st) /\
+                 s_open (rs_store st) = [out] /\ l_cp_drains (rs_log st) = 1%nat /\ l_input_closes (rs_log st) = 1%nat /\
+                 rs_resolved st = [0; 2; 3; 2; 3].
+Proof.
+  assert (E : exists out st, run_int ex_pregel icfg0 [(0, [])] ex_pregel_rr_tms = Ok (SDone out [] st) /\
+              (s_open (rs_store st) = [out] /\ l_cp_drains (rs_log st) = 1%nat /\ l_input_closes (rs_log st) = 1%nat /\
+               rs_resolved st = [0; 2; 3; 2; 3])).
+  { vm_compute. eexists. eexists. split; [reflexivity|]. repeat split. }
   exact E.
 Qed.
